@@ -196,6 +196,18 @@ func (e *L2) Fund(addr sdk.AccAddress, coins ...sdk.Coin) {
 	}
 }
 
+// FundModule mints coins into a module account (e.g. the fee collector).
+func (e *L2) FundModule(module string, coins ...sdk.Coin) {
+	ctx := e.Ctx.WithEventManager(sdk.NewEventManager()).WithGasMeter(storetypes.NewInfiniteGasMeter())
+	cs := sdk.NewCoins(coins...)
+	if err := e.BK.MintCoins(ctx, e.Minter, cs); err != nil {
+		panic(err)
+	}
+	if err := e.BK.SendCoinsFromModuleToModule(ctx, e.Minter, module, cs); err != nil {
+		panic(err)
+	}
+}
+
 // Deliver runs one message as one transaction.
 func (e *L2) Deliver(msg sdk.Msg) Result { return deliver(e.Ctx, e.Router, msg) }
 
